@@ -242,7 +242,8 @@ fn run(rep: &Report) {
     let diffs: Vec<(usize, u64, u64)> = (0..256).filter_map(|i| { let e = slot_cost_exact(i as u32); (e != SLOT_COST[i]).then_some((i, SLOT_COST[i], e)) }).collect();
     rep.extra("slot_table_vs_exact_closed_form_differences", json!(diffs));
 
-    let counts: Vec<usize> = rep.tier.pick(vec![1, 2], vec![1, 2, 3]);
+    // both tiers enumerate the same space: the deeper bound costs ~15 s
+    let counts: Vec<usize> = vec![1, 2, 3];
     let mut cases: Vec<(String, Vec<GSpend>, bool)> = Vec::new();
     for &k in &counts {
         let l1 = letters(&env, &P1, k);
